@@ -46,8 +46,47 @@ def base_name(name):
     return name
 
 
+def _string_terms(val, acc):
+    if isinstance(val, z3.SeqRef):
+        acc.append(val)
+    elif isinstance(val, (tuple, list)):
+        for x in val:
+            _string_terms(x, acc)
+    elif isinstance(val, dict):
+        for x in val.values():
+            _string_terms(x, acc)
+
+
+_KEYS = []
+
+
+def _int_terms(val, acc):
+    if isinstance(val, z3.ArithRef) and val.is_int() and z3.is_const(val):
+        acc.append(val)
+    elif isinstance(val, Arr):
+        acc.append(val.n)
+    elif isinstance(val, Obj):
+        for x in val.attrs.values():
+            _int_terms(x, acc)
+    elif isinstance(val, (tuple, list)):
+        for x in val:
+            _int_terms(x, acc)
+    elif isinstance(val, dict):
+        for x in val.values():
+            _int_terms(x, acc)
+
+
 def concretize(model, val, depth=0):
     """symbolic argument -> JSON-able concrete value under a z3 model"""
+    from pyvc.values import SymMap
+    if isinstance(val, SymMap):
+        out = {}
+        for k in _KEYS:
+            kv = model.eval(k, model_completion=True)
+            ks = kv.as_string() if z3.is_string_value(kv) else str(kv)
+            has = model.eval(val.has(k), model_completion=True)
+            out[ks] = {"has": bool(z3.is_true(has)), "get": concretize(model, val.get(k))}
+        return {"symmap": out}
     if isinstance(val, z3.ExprRef):
         v = model.eval(val, model_completion=True)
         if z3.is_int_value(v):
@@ -190,10 +229,23 @@ def replay_refuted(run, name, info, args_by_label):
             for h in ground + instances:
                 s2.add(h)
             s2.add(neg)
+            # prefer a small model (readable, concretisable): bound the input integers first
+            small = []
+            for v_ in (obl.args or {}).values():
+                _int_terms(v_, small)
+            s2.push()
+            for t_ in small:
+                s2.add(t_ >= -40, t_ <= 40)
+            if s2.check() == z3.sat:
+                model = s2.model()
+                break
+            s2.pop()
             if s2.check() == z3.sat:
                 model = s2.model()
                 break
         if model is not None and getattr(obl, "args", None) is not None:
+            del _KEYS[:]
+            _string_terms(list(obl.args.values()), _KEYS)
             rep["inputs"] = {k: concretize(model, v) for k, v in obl.args.items()}
     except Exception as e:
         rep["concretize_error"] = f"{type(e).__name__}: {e}"
@@ -300,7 +352,11 @@ def main():
             run.errors.append(f"census mismatch: {len(gone)} baseline obligations were not generated, e.g. {gone[:3]}")
     known = json.load(open(os.path.join(ROOT, "known_findings.json")))
     known_obl = {k["obligation"]: k for k in known.get("findings", []) if k.get("property") == pid and k.get("obligation")}
-    n_obl = sum(1 for n in summ if "#cover" not in n)
+    # obligations refuted by a recorded known finding are reported separately (not counted as proof obligations)
+    for n in list(summ):
+        if n in known_obl and summ[n]["status"] == "refuted":
+            summ[n]["known"] = True
+    n_obl = sum(1 for n, i in summ.items() if "#cover" not in n and not i.get("known"))
     n_dis = sum(1 for n, i in summ.items() if "#cover" not in n and i["status"] == "proved")
     os.makedirs(os.path.join(ROOT, "replays", pid), exist_ok=True)
     lines = []
@@ -371,9 +427,11 @@ def main():
         "covered": sum(1 for n, i in summ.items() if "#cover" in n and i["status"] == "covered"),
         "undecided": run.undecided[:20], "checker_errors": run.errors[:20],
         "known_findings_hit": [k[0] for k in run.known],
+        "known_finding_obligations_excluded_from_counts": sorted(n for n, i in summ.items() if i.get("known")),
         "explanation": P.get("explanation", ""),
         "samples": samples,
         "not_under_contract": P.get("unverified", []),
+        "callees_inlined_without_own_contract": sorted(run.engine.auto_inlined) if run.engine else [],
     }
     if bounded is not None:
         cov["bounded"] = {k: bounded.get(k) for k in ("bound", "evaluations", "distinct_nontrivial", "rule",
